@@ -562,6 +562,7 @@ static std::string run_w(const Case& c, Report& rep, bool* nontrivial) {
       if (o.kind == K_WSKIP && !w.has_skip) { g_stats.noop_calls++; continue; }
       if (o.kind == K_WN && w.cex && !ty_cex(o.ty)) { g_stats.noop_calls++; continue; }   // does not compile for this writer
       if (o.kind == K_WN && w.cex && o.ty == T_b8 && g_excl_cex_bool) { rep.exclude("cex-bool: Write(const bool*, const bool*) on ConstexprBufferWriter not driven"); continue; }
+      if (o.kind == K_WSKIP && w.sink_limited && nbytes > w.cap + kUnboundedSkipMax) { rep.exclude("Skip(n > capacity + 4096) on a stream writer over a fixed-capacity sink not driven"); continue; }
       if (o.kind == K_WSKIP && w.unbounded && nbytes > kUnboundedSkipMax) { rep.exclude("Skip(n > 4096) on an unbounded stream writer not driven (would write n bytes)"); continue; }
       const bool fits = w.unbounded || nbytes <= rem;
       if (!fits && w.unchecked) { g_stats.unchecked_not_driven++; continue; }   // BufferWriter: Prepare is the guard
